@@ -1476,16 +1476,21 @@ static int rtr_send_error_pdu_from_host(const struct rtr_socket *rtr_socket, con
 					const uint32_t erroneous_pdu_len, const enum pdu_error_type error,
 					const char *err_text, const uint32_t err_text_len)
 {
+	// errors that are not caused by a particular PDU carry no encapsulated PDU
+	if (erroneous_pdu_len == 0)
+		return rtr_send_error_pdu(rtr_socket, NULL, 0, error, err_text, err_text_len);
+
+	if (erroneous_pdu_len < sizeof(struct pdu_header))
+		return RTR_ERROR;
+
 	char pdu[erroneous_pdu_len];
 
 	memcpy(&pdu, erroneous_pdu, erroneous_pdu_len);
 
 	if (erroneous_pdu_len == sizeof(struct pdu_header))
 		rtr_pdu_header_to_network_byte_order(&pdu);
-	else if (erroneous_pdu_len > sizeof(struct pdu_header))
-		rtr_pdu_to_network_byte_order(&pdu);
 	else
-		return RTR_ERROR;
+		rtr_pdu_to_network_byte_order(&pdu);
 
 	return rtr_send_error_pdu(rtr_socket, &pdu, erroneous_pdu_len, error, err_text, err_text_len);
 }
